@@ -8,6 +8,7 @@ import (
 	"context"
 	"crypto/rsa"
 	"encoding/xml"
+	"errors"
 	"fmt"
 	"log"
 	"net"
@@ -306,6 +307,14 @@ func (s *Server) acceptAndRegister(ctx context.Context, l *uacp.Listener) {
 			if err != nil {
 				switch x := err.(type) {
 				case *net.OpError:
+					if !errors.Is(err, net.ErrClosed) {
+						// the error belongs to the accepted connection (e.g. it
+						// was reset during the handshake), not to the listener.
+						if s.cfg.logger != nil {
+							s.cfg.logger.Error("error accepting connection: %s", err)
+						}
+						continue
+					}
 					// socket closed. Cannot recover from this.
 					if s.cfg.logger != nil {
 						s.cfg.logger.Error("socket closed: %s", err)
